@@ -241,4 +241,4 @@ func c20Scripted(scratch string) []*c20Hist {
 
 // DEFECT-PENDING(straggler-direrrors): off until the integrator has decided between a repair and a known finding
 // (VERIF_PENDING=straggler-direrrors switches the history on for one run).
-const c20PendingStraggler = false
+const c20PendingStraggler = true // repaired: D23
